@@ -32,7 +32,7 @@ def extraction(unit, repo):
     all_toks = []
     pieces_out = []
     per_piece = []
-    const_ctx = []
+    const_ctx_by_file = {}
     paths = sorted([(k.split("::"), v) for k, v in u.get("paths", {}).items()], key=lambda kv: -len(kv[0]))
     for src in u["sources"]:
         pieces, top, ftoks = X.extract_file(repo, src["file"], src["select"])
@@ -44,7 +44,8 @@ def extraction(unit, repo):
                     pnames[it.name] = it.kw
                 elif it.kw in ("struct", "enum", "type") and it.name in src.get("prefix_types", []):
                     pnames[it.name] = "type"
-        const_ctx += X.all_const_items(top, ftoks)
+        const_ctx_by_file.setdefault(src["file"], [])
+        const_ctx_by_file[src["file"]] = X.all_const_items(top, ftoks)
         opts_by_sel = {}
         for s in src["select"]:
             if isinstance(s, dict):
@@ -69,7 +70,15 @@ def extraction(unit, repo):
                     t.ws = t.ws.replace("//!", "// !").replace("/*!", "/* !")
             per_piece.append(toks)
             pieces_out.append(p)
-    R.r5_consts(per_piece, const_ctx, log)
+    # R5 per source file (consts of one file may depend on each other; never on other files here)
+    byfile = {}
+    for p, toks in zip(pieces_out, per_piece):
+        byfile.setdefault(p.file, []).append(toks)
+    for f, lst in byfile.items():
+        try:
+            R.r5_consts(lst, [c.replace("//!", "// !").replace("/*!", "/* !") for c in const_ctx_by_file.get(f, [])], log)
+        except RuntimeError as e:
+            log.add("R5-skipped", lst[0][0], str(e)[:150])
     for p, toks in zip(pieces_out, per_piece):
         if not toks:
             continue
